@@ -1,8 +1,8 @@
 SPECIFICATION Spec
 CONSTANTS N = 4
  MaxCalls = 3
- WithList = TRUE
- FinalOccursCheck = TRUE
+ WithList = FALSE
+ ExactOccursCheck = TRUE
 INVARIANT TypeOK
 INVARIANT Flat
 INVARIANT AcyclicOrRejected
